@@ -163,17 +163,16 @@ func (cl *Loader) load(file string) (config map[string]interface{}, err error) {
 				if cl.imports[importFile] {
 					continue
 				}
-				fi, err := os.Stat(importFile)
-				if err != nil {
-					return nil, fmt.Errorf("%s: %v", importFile, err)
+				fi, statErr := os.Stat(importFile)
+				if statErr != nil {
+					return nil, fmt.Errorf("%s: %v", importFile, statErr)
 				}
+				// err must be the function's err: a shadowed copy made a broken
+				// import being logged and ignored
 				if !fi.IsDir() {
 					raw, err = cl.load(importFile)
 				} else {
 					raw, err = cl.loadDir(importFile)
-				}
-				if err != nil {
-					logrus.Error(err)
 				}
 			}
 			if err != nil {
